@@ -79,6 +79,7 @@ def c12(run):
     P = run.prog('rel')
     r_session.run_ref_tmp(run, P)
     r_session.run_ref_hold(run, P)
+    r_session.run_ref_stale(run, P)
     r_session.run_sess_evt(run, P)
     r_session.run_teardown(run, P)
     r_session.run_hashed(run, P)
@@ -109,6 +110,7 @@ def c01(run):
     r_codec.run(run, P)
     r_codec.run_toklen(run, P)
     r_codec.run_tokext(run, P)
+    r_codec.run_tokbias(run, P)
     r_width.run_a(run, P)
     r_fixup.run_stale(run, P, only=_codec_funcs(P))
     r_fixup.run_pairing(run, P)
@@ -131,8 +133,10 @@ def c03(run):
     r_codec.run(run, P)
     r_codec.run_toklen(run, P)
     r_codec.run_tokext(run, P)
+    r_codec.run_tokbias(run, P)
     r_parsegate.run(run, P)
     r_parsegate.run_outputs(run, P)
+    r_parsegate.run_verdict(run, P)
     run.min_instances('R-WIDTH', 4)
     run.min_instances('R-PARSE-GATE', 15)
     run.assumptions = ASSUME_COMMON + ["agreement with an independent decoder on all inputs and the per-option length table are NOT decided"]
@@ -156,6 +160,7 @@ def c04(run):
     r_codec.run(run, P)
     r_codec.run_toklen(run, P)
     r_codec.run_tokext(run, P)
+    r_codec.run_tokbias(run, P)
     run.min_instances('R-FIXUP', 8)
     run.assumptions = ASSUME_COMMON + ["equality with the list model after arbitrary edit sequences is NOT decided"]
     return run.finish(
@@ -356,6 +361,8 @@ def c14(run):
     r_oscrole.run(run, P)
     r_oscsplit.run_flag_reach(run, P)
     r_oscsplit.run_match_acc(run, P)
+    from rules import r_oscflags
+    r_oscflags.run(run, P)
     run.min_instances('R-OSC-SPLIT', 7)
     run.assumptions = ASSUME_COMMON + ["byte equality with an independent RFC 8613 implementation (COSE object, AAD, nonce, AES-CCM output) and the round trip are NOT decided"]
     return run.finish(
@@ -388,6 +395,8 @@ def c02(run):
     r_countcap.run(run, P)
     from rules import r_stalecopy
     r_stalecopy.run(run, P)
+    from rules import r_writecap
+    r_writecap.run(run, P)
     run.min_instances('R-RANGE', 12)
     run.min_instances('R-STREAM-CAP', 4)
     run.min_instances('R-PARSE-GATE', 15)
